@@ -9,22 +9,35 @@ use bed_utils::bed::{merge_sorted_bedgraph, BEDLike, BedGraph};
 struct B { r: Rec, v: i64 }
 
 fn enc(xs: &[B]) -> Vec<String> { let mut w = W::new(); w.n(xs.len()); for b in xs { b.r.put(&mut w); w.n(b.v); } w.0 }
-fn dec(t: &[String]) -> Option<Vec<B>> { let mut r = R::new(t); r.list(|r| Some(B { r: Rec::get(r)?, v: r.i64()? })) }
+fn dec(t: &[String]) -> Option<Vec<B>> { let (t, _) = split_flavour(t); let mut r = R::new(t); r.list(|r| Some(B { r: Rec::get(r)?, v: r.i64()? })) }
+/// value type of the instantiation, carried as the flavour token: 0 i64, 1 i32, 2 f64, 3 f32, 4 i128, 5 i16, 6 isize
+const N_VTYPES: u64 = 7;
+fn vmax(ty: u64) -> i128 { match ty { 0 | 6 => i64::MAX as i128, 1 => i32::MAX as i128, 2 => 1 << 53, 3 => 1 << 24, 4 => i128::MAX, _ => i16::MAX as i128 } }
+/// no partial sum can leave the type's exact range
+fn fits(xs: &[B], ty: u64) -> bool { xs.iter().map(|b| (b.v as i128).abs()).sum::<i128>() <= vmax(ty) }
 fn valid(xs: &[B]) -> bool {
     xs.iter().all(|b| b.r.start < b.r.end) && xs.windows(2).all(|w| (w[0].r.chrom.as_bytes(), w[0].r.start, w[0].r.end) <= (w[1].r.chrom.as_bytes(), w[1].r.start, w[1].r.end))
 }
 
+macro_rules! run_v {
+    ($v:ty, $xs:expr, $t:expr) => {{
+        let input: Vec<BedGraph<$v>> = $xs.iter().map(|b| BedGraph::new(b.r.chrom.clone(), b.r.start, b.r.end, b.v as $v)).collect();
+        let out: Vec<BedGraph<$v>> = drain_mode(merge_sorted_bedgraph(input), mode_of($t));
+        let mut w = W::new();
+        w.n(out.len());
+        for o in &out { w.b(o.chrom().as_bytes()).n(o.start()).n(o.end()).n(o.value as i128); }
+        w.join()
+    }};
+}
 fn exec(t: &[String]) -> Option<String> {
     let xs = dec(t)?;
-    let input: Vec<BedGraph<i64>> = xs.iter().map(|b| BedGraph::new(b.r.chrom.clone(), b.r.start, b.r.end, b.v)).collect();
-    let out: Vec<BedGraph<i64>> = drain_mode(merge_sorted_bedgraph(input), mode_of(t));
-    let mut w = W::new();
-    w.n(out.len());
-    for o in &out { w.b(o.chrom().as_bytes()).n(o.start()).n(o.end()).n(o.value); }
-    Some(w.join())
+    let ty = split_flavour(t).1;
+    if !fits(&xs, ty) { return None; }
+    Some(match ty { 0 => run_v!(i64, &xs, t), 1 => run_v!(i32, &xs, t), 2 => run_v!(f64, &xs, t), 3 => run_v!(f32, &xs, t), 4 => run_v!(i128, &xs, t), 5 => run_v!(i16, &xs, t), _ => run_v!(isize, &xs, t) })
 }
 
-fn shrink(t: &[String]) -> Vec<Vec<String>> {
+fn shrink(t: &[String]) -> Vec<Vec<String>> { shrink_flavoured(t, shrink0) }
+fn shrink0(t: &[String]) -> Vec<Vec<String>> {
     let Some(xs) = dec(t) else { return vec![] };
     let mut out = vec![];
     for v in shrink_vec(&xs) { out.push(v); }
@@ -58,7 +71,9 @@ fn gen(rng: &mut Rng, tier: Tier) -> Vec<Case> {
         let n = if small { rng.range(1, 7) as usize } else { rng.range(5, 120) as usize };
         let base = if small { 0 } else { match rng.below(4) { 0 => u64::MAX - 100_000, 1 => rng.below(1 << 50), _ => 0 } };
         let recs = super::c07::gen_sorted_recs(rng, n, if small { 14 } else { 2000 }, base, false);
-        let vals: &[i64] = match rng.below(3) { 0 => &[1, -1, 2, -2, 0], 1 => &[1, 2, 3], _ => &[-5, -1, 0, 1, 5, 1000, -1000] };
+        // values of great magnitude (a few records only, so that no sum overflows): sums that differ by 1 at 2^53 .. 2^59
+        let vals: &[i64] = match rng.below(if small { 5 } else { 3 }) { 0 => &[1, -1, 2, -2, 0], 1 => &[1, 2, 3], 2 => &[-5, -1, 0, 1, 5, 1000, -1000],
+            3 => &[1 << 59, -(1 << 59), 1, -1, (1 << 59) + 1, 2], _ => &[1 << 53, (1 << 53) + 1, -(1 << 53), 1, -1, 1 << 24, (1 << 24) + 1, 1 << 31, -(1 << 31)] };
         let mut xs: Vec<B> = recs.into_iter().filter(|r| r.start < r.end).map(|r| B { r, v: *rng.pick(vals) }).collect();
         // several records starting at one position with mixed signs
         if !xs.is_empty() && rng.chance(1, 3) {
@@ -68,7 +83,10 @@ fn gen(rng: &mut Rng, tier: Tier) -> Vec<Case> {
         }
         xs.sort_by(|a, b| a.r.chrom.as_bytes().cmp(b.r.chrom.as_bytes()).then(a.r.start.cmp(&b.r.start)).then(a.r.end.cmp(&b.r.end)));
         if xs.is_empty() { continue; }
-        out.push(Case::new(if small { "boundary" } else { "random" }, enc(&xs)));
+        // the value type of the instantiation (when every possible sum is exact in it)
+        let ty = if rng.chance(1, 2) { 0 } else { rng.below(N_VTYPES) };
+        let ty = if fits(&xs, ty) { ty } else if fits(&xs, 0) { 0 } else { 4 };
+        out.push(Case::new(if small { "boundary" } else { "random" }, push_flavour(enc(&xs), ty)));
     }
     out
 }
